@@ -11,6 +11,7 @@ orders (`TxMode`), every window `W ≥ 1`; start-up: every old chain and every n
 -/
 import BtcwVerif.Lemmas.SyncTipEvolve
 import BtcwVerif.Lemmas.SyncTipStartup
+import BtcwVerif.Lemmas.SyncTipCompose
 namespace SyncTip
 
 /-- Chains are lists with parent links: the same hash at height `h` means the same chain below `h`. -/
@@ -79,5 +80,162 @@ example : ∃ w', startupRollback cfg0 (evolve cfg0 (genesisWallet C0, []) [.ext
     w'.syncedTo = stampOf C0 [] := by
   refine ⟨_, rfl, ?_⟩
   decide
+
+/-! ### Start-up composed with evolution
+
+`startup` = the whole `syncWithChain` of a reopened wallet (rollback loop → `recovery` when `recW > 0`, in batches of
+`batch` blocks → rescan → `RescanFinished`/`catchUpHashes`).  Quantification: every stopped wallet (`StoppedInv`:
+what `Inv` leaves when the wallet is stopped), every backend chain `tip` (offline extension, offline reorg of any
+depth, wallet transactions in stale blocks = arbitrary `Content`), every `recW`, `batch`, `W ≥ 1`. -/
+
+/-- Total outcome of start-up: the rollback transaction fails, nothing is written and `syncWithChain` reports an
+    error (the wallet retries), or start-up succeeds and the wallet is in sync with the backend's chain — `Inv`, the
+    hypothesis of `C15_tip` / `C15_hashes` / `C15_no_offchain_tx`. -/
+theorem C15_startup_total (cfg : Cfg) (hW : 1 ≤ cfg.W) {w : Wallet} {old : BlockId} {lo : Nat}
+    (hS : StoppedInv cfg w old lo) (tip : BlockId) (recW batch : Nat) :
+    ((∃ e, startupRollback cfg { w with chainSynced := false } tip = .error e) ∧
+      startup cfg recW batch w tip = ({ w with chainSynced := false }, false)) ∨
+    (∃ w' c, startup cfg recW batch w tip = (w', true) ∧
+      (∃ w1, startupRollback cfg { w with chainSynced := false } tip = .ok w1) ∧
+      IsLastCommon old tip c ∧ old.length ≤ tip.length ∧ Inv cfg w' tip (startupLo cfg.W lo c tip.length)) :=
+  startup_total cfg hW hS tip recW batch
+
+/-- **A successful start-up establishes the invariant.**  `c` is the height of the last block the wallet's old chain
+    has in common with the backend's; the remembered range afterwards starts at
+    `lo' = startupLo W lo c |tip|`, with `min lo c ≤ lo' ≤ max (min lo c) (|tip| + 1 − W)`: what was remembered at or
+    below the common block stays remembered unless the catch-up prunes it (`height − W`). -/
+theorem C15_startup_establishes_inv (cfg : Cfg) (hW : 1 ≤ cfg.W) {w : Wallet} {old : BlockId} {lo : Nat}
+    (hS : StoppedInv cfg w old lo) (tip : BlockId) (recW batch : Nat) {w' : Wallet}
+    (hok : startup cfg recW batch w tip = (w', true)) :
+    ∃ c, IsLastCommon old tip c ∧ old.length ≤ tip.length ∧ Inv cfg w' tip (startupLo cfg.W lo c tip.length) ∧
+      min lo c ≤ startupLo cfg.W lo c tip.length ∧
+      startupLo cfg.W lo c tip.length ≤ max (min lo c) (tip.length + 1 - cfg.W) := by
+  rcases startup_total cfg hW hS tip recW batch with ⟨_, h⟩ | ⟨w2, c, h, _, h1, h2, h3⟩
+  · rw [h] at hok; cases hok
+  · rw [h] at hok
+    have : w2 = w' := (Prod.mk.inj hok).1
+    subst this
+    exact ⟨c, h1, h2, h3, startupLo_ge _ _ _ _, startupLo_le _ _ _ _ h1.2.1⟩
+
+/-- **When start-up succeeds** (so the composed theorems are not vacuous): the backend is at least as high as the
+    wallet's tip, the last common block is within the remembered range, and — when blocks have to be rolled back —
+    the block below it is remembered too or it is the genesis block (the same condition `ValidStep` puts on an
+    online reorg).  Any recovery window, any batch size. -/
+theorem C15_startup_succeeds (cfg : Cfg) (hW : 1 ≤ cfg.W) {w : Wallet} {old : BlockId} {lo : Nat}
+    (hS : StoppedInv cfg w old lo) (tip : BlockId) (recW batch : Nat) (c : Nat)
+    (hlen : old.length ≤ tip.length) (hcm : IsLastCommon old tip c) (hlo : lo ≤ c)
+    (hpred : c = old.length ∨ c = 0 ∨ lo + 1 ≤ c) :
+    ∃ w', startup cfg recW batch w tip = (w', true) ∧ Inv cfg w' tip (startupLo cfg.W lo c tip.length) := by
+  obtain ⟨w1, h1⟩ := startupRollback_succeeds cfg hS.unsynced tip c hlen hcm hlo hpred
+  rcases startup_total cfg hW hS tip recW batch with ⟨⟨e, he⟩, _⟩ | ⟨w', c', h, _, hc', _, hI⟩
+  · rw [h1] at he; cases he
+  · have : c' = c := isLastCommon_unique hc' hcm
+    subst this
+    exact ⟨w', h, hI⟩
+
+/-- … and it fails (without writing anything) when the backend is lower than the wallet's tip. -/
+theorem C15_startup_fails_below_tip (cfg : Cfg) (hW : 1 ≤ cfg.W) {w : Wallet} {old : BlockId} {lo : Nat}
+    (hS : StoppedInv cfg w old lo) (tip : BlockId) (recW batch : Nat) (hlen : tip.length < old.length) :
+    startup cfg recW batch w tip = ({ w with chainSynced := false }, false) := by
+  rcases startup_total cfg hW hS tip recW batch with ⟨_, h⟩ | ⟨_, _, _, _, _, h, _⟩
+  · exact h
+  · omega
+
+/-- Start-up against ANY backend chain followed by ANY valid evolution: the synced-to stamp is the backend's tip. -/
+theorem C15_startup_then_evolve_tip (cfg : Cfg) (hW : 1 ≤ cfg.W) {w : Wallet} {old : BlockId} {lo : Nat}
+    (hS : StoppedInv cfg w old lo) (tip : BlockId) (recW batch : Nat) {w' : Wallet}
+    (hok : startup cfg recW batch w tip = (w', true)) {steps : List Step} {tip' : BlockId} {lo' : Nat}
+    (hr : ∀ c, IsLastCommon old tip c → ValidRun cfg.W tip (startupLo cfg.W lo c tip.length) steps tip' lo') :
+    (evolve cfg (w', tip) steps).2 = tip' ∧ (evolve cfg (w', tip) steps).1.syncedTo = stampOf cfg.C tip' := by
+  obtain ⟨c, hc, _, hI, _⟩ := C15_startup_establishes_inv cfg hW hS tip recW batch hok
+  exact C15_tip cfg hW hI (hr c hc)
+
+/-- … every remembered hash at a height ≤ tip is the best chain's, and every height that is ≥ `min lo c` (remembered
+    before the stop and not above the common block) and within `W` of the highest tip ever reached is remembered. -/
+theorem C15_startup_then_evolve_hashes (cfg : Cfg) (hW : 1 ≤ cfg.W) {w : Wallet} {old : BlockId} {lo : Nat}
+    (hS : StoppedInv cfg w old lo) (tip : BlockId) (recW batch : Nat) {w' : Wallet}
+    (hok : startup cfg recW batch w tip = (w', true)) {steps : List Step} {tip' : BlockId} {lo' : Nat}
+    (hr : ∀ c, IsLastCommon old tip c → ValidRun cfg.W tip (startupLo cfg.W lo c tip.length) steps tip' lo') :
+    let wf := (evolve cfg (w', tip) steps).1
+    (∀ h x, h ≤ tip'.length → wf.hashes h = some x → x = some (ancestorAt tip' h)) ∧
+    (∀ c, IsLastCommon old tip c → ∀ h, min lo c ≤ h → maxTip tip steps + 1 - cfg.W ≤ h → h ≤ tip'.length →
+      wf.hashes h = some (some (ancestorAt tip' h))) := by
+  obtain ⟨c, hc, _, hI, _, hle⟩ := C15_startup_establishes_inv cfg hW hS tip recW batch hok
+  obtain ⟨h1, h2⟩ := C15_hashes cfg hW hI (hr c hc)
+  refine ⟨h1, ?_⟩
+  intro c' hc' h g1 g2 g3
+  have : c' = c := isLastCommon_unique hc' hc
+  subst this
+  have := maxTip_ge tip steps
+  exact h2 h (by omega) g2 g3
+
+/-- … and no transaction is recorded as confirmed in a block that is not on the best chain (in particular none of the
+    wallet transactions of the blocks that went stale while the wallet was stopped). -/
+theorem C15_startup_then_evolve_no_offchain_tx (cfg : Cfg) (hW : 1 ≤ cfg.W) {w : Wallet} {old : BlockId} {lo : Nat}
+    (hS : StoppedInv cfg w old lo) (tip : BlockId) (recW batch : Nat) {w' : Wallet}
+    (hok : startup cfg recW batch w tip = (w', true)) {steps : List Step} {tip' : BlockId} {lo' : Nat}
+    (hr : ∀ c, IsLastCommon old tip c → ValidRun cfg.W tip (startupLo cfg.W lo c tip.length) steps tip' lo') :
+    ∀ r ∈ (evolve cfg (w', tip) steps).1.mined, r.height ≤ tip'.length ∧ r.hash = some (ancestorAt tip' r.height) := by
+  obtain ⟨c, hc, _, hI, _⟩ := C15_startup_establishes_inv cfg hW hS tip recW batch hok
+  exact C15_no_offchain_tx cfg hW hI (hr c hc)
+
+/-- The cycle closes: a wallet in sync can be stopped (`Inv.stopped`), restarted against any chain, evolve, be stopped
+    again, … — every successful start-up re-establishes `Inv`. -/
+theorem C15_stop_start_cycle (cfg : Cfg) (hW : 1 ≤ cfg.W) {w : Wallet} {old : BlockId} {lo : Nat}
+    (hI : Inv cfg w old lo) (tip : BlockId) (recW batch : Nat) {w' : Wallet}
+    (hok : startup cfg recW batch w tip = (w', true)) : ∃ lo', Inv cfg w' tip lo' := by
+  obtain ⟨c, _, _, h, _⟩ := C15_startup_establishes_inv cfg hW hI.stopped tip recW batch hok
+  exact ⟨_, h⟩
+
+/-! Non-vacuity of the composition: the wallet is in sync with `[2,1]` (wallet transaction 7 confirmed in block
+    `[2,1]`), is stopped, the backend reorganises to `[5,4,1]` (depth 1; transaction 7 is mined again in `[4,1]`),
+    start-up with and without a recovery window, then one more online reorg. -/
+def C2 : Content := ⟨fun b => b.length, fun b => if b = [2, 1] ∨ b = [4, 1] then [⟨7, false⟩] else []⟩
+def cfg2 : Cfg := ⟨10000, C2⟩
+def steps2 : List Step := [.extend 1 .after, .extend 2 .after]
+def wOld2 : Wallet := (evolve cfg2 (genesisWallet C2, []) steps2).1
+
+theorem steps2_valid : ValidRun 10000 [] 0 steps2 [2, 1] 0 := .cons trivial (.cons trivial (.nil _ _))
+
+theorem wOld2_inv : Inv cfg2 wOld2 [2, 1] 0 :=
+  (run_preserves_inv cfg2 (by decide) (inv_genesis cfg2 (by decide)) steps2_valid).1
+
+example : wOld2.mined = [⟨⟨7, false⟩, 2, some [2, 1]⟩] := by decide
+example : IsLastCommon [2, 1] [5, 4, 1] 1 := by
+  refine ⟨by decide, by decide, by decide, ?_⟩
+  intro h h1 h2 _
+  have : h = 2 := by simp at h2; omega
+  subst this; decide
+/-- recW = 0: the stale record is rolled back and the rescan records the transaction in its new block -/
+example : (startup cfg2 0 2000 wOld2 [5, 4, 1]).2 = true ∧
+    (startup cfg2 0 2000 wOld2 [5, 4, 1]).1.mined = [⟨⟨7, false⟩, 2, some [4, 1]⟩] ∧
+    (startup cfg2 0 2000 wOld2 [5, 4, 1]).1.syncedTo = stampOf C2 [5, 4, 1] := by decide
+/-- recW > 0, batch size 1 (two recovery batches) -/
+example : (startup cfg2 3 1 wOld2 [5, 4, 1]).2 = true ∧
+    (startup cfg2 3 1 wOld2 [5, 4, 1]).1.mined = [⟨⟨7, false⟩, 2, some [4, 1]⟩] ∧
+    (startup cfg2 3 1 wOld2 [5, 4, 1]).1.syncedTo = stampOf C2 [5, 4, 1] := by decide
+/-- the theorems apply to both: -/
+example : ∃ lo', Inv cfg2 (startup cfg2 0 2000 wOld2 [5, 4, 1]).1 [5, 4, 1] lo' :=
+  C15_stop_start_cycle cfg2 (by decide) wOld2_inv [5, 4, 1] 0 2000 (Prod.ext rfl (by decide))
+example : ∃ lo', Inv cfg2 (startup cfg2 3 1 wOld2 [5, 4, 1]).1 [5, 4, 1] lo' :=
+  C15_stop_start_cycle cfg2 (by decide) wOld2_inv [5, 4, 1] 3 1 (Prod.ext rfl (by decide))
+/-- the success criterion applies (c = 1, lo = 0, genesis below the common block) -/
+example : ∃ w', startup cfg2 3 1 wOld2 [5, 4, 1] = (w', true) ∧ Inv cfg2 w' [5, 4, 1] (startupLo 10000 0 1 3) :=
+  C15_startup_succeeds cfg2 (by decide) wOld2_inv.stopped [5, 4, 1] 3 1 1 (by decide)
+    ⟨by decide, by decide, by decide, by
+      intro h h1 h2 _
+      have : h = 2 := by simp at h2; omega
+      subst this; decide⟩ (by decide) (Or.inr (Or.inr (by decide)))
+/-- start-up, then an online depth-2 reorg: the composed theorem gives the final tip -/
+example : (evolve cfg2 ((startup cfg2 3 1 wOld2 [5, 4, 1]).1, [5, 4, 1]) [.reorg 2 [6, 7, 8] .before]).1.syncedTo
+    = stampOf C2 [8, 7, 6, 1] :=
+  (C15_startup_then_evolve_tip cfg2 (by decide) wOld2_inv.stopped [5, 4, 1] 3 1 (Prod.ext rfl (by decide))
+    (lo' := 0) (fun c hc => by
+      have : c = 1 := isLastCommon_unique hc ⟨by decide, by decide, by decide, by
+        intro h h1 h2 _
+        have : h = 2 := by simp at h2; omega
+        subst this; decide⟩
+      subst this
+      exact .cons ⟨by decide, by decide⟩ (.nil _ _))).2
 
 end SyncTip
